@@ -362,8 +362,20 @@ fn scenario(w: &mut World, ctx: &RunCtx, states: &mut Vec<u64>) -> Result<(), Vi
     }
     // ---- the alien peer: same key, real handshake and envelope code, own node-info encoder
     let alien_addr = mesh::unknown_addr(42);
+    // the cipher list of a handshake message has a length field of its own: lists longer than today's four entries
+    // (the configuration does not remove duplicates; a newer peer may know more methods) must decode all the same
+    let long_list = !plain && w.ch.chance("alien_long_cipher_list", 300);
+    let alien_algos: Vec<String> = if plain {
+        vec!["plain".into()]
+    } else if long_list {
+        let k = 5 + w.ch.choose("alien_cipher_entries", 8) as usize;
+        w.count("c16_alien_cipher_lists_longer_than_four");
+        (0..k).map(|_| w.ch.pick("alien_cipher_entry", &["aes128", "aes256", "chacha20"]).to_string()).collect()
+    } else {
+        vec![]
+    };
     let kc = &w.keys[k];
-    let acfg = CryptoConfig { password: None, private_key: Some(kc.private.clone()), public_key: None, trusted_keys: vec![kc.public.clone()], algorithms: if plain { vec!["plain".into()] } else { vec![] } };
+    let acfg = CryptoConfig { password: None, private_key: Some(kc.private.clone()), public_key: None, trusted_keys: vec![kc.public.clone()], algorithms: alien_algos };
     let mut aid = [0u8; 16];
     rng.fill(&mut aid);
     let crypto = match io::guarded(|| Crypto::new(aid, &acfg)) {
@@ -402,9 +414,11 @@ fn scenario(w: &mut World, ctx: &RunCtx, states: &mut Vec<u64>) -> Result<(), Vi
         guard(w, &st)?;
     }
     // actions: 10 = alien dials node 0, 11 = alien tick, 12 = alien announces itself, 13 = probe to the alien's claim
+    let mut dialled_at: Option<u64> = None;
     if with_alien {
         let at = 500 + w.ch.choose("alien_dial_ms", 3000) as u64;
         w.schedule_action(at, 10, 0);
+        dialled_at = Some(at);
         w.count("c16_runs_with_alien");
     }
     let mut alien_listed = false;
@@ -425,6 +439,9 @@ fn scenario(w: &mut World, ctx: &RunCtx, states: &mut Vec<u64>) -> Result<(), Vi
             }
             if alien.established && alien_listed && w.ch.chance("probe_to_alien", 200) {
                 w.schedule_action(w.now_ms, 13, 0);
+            }
+            if alien.established && !plain && w.ch.chance("alien_odd_rotation_message", 100) {
+                w.schedule_action(w.now_ms, 14, 0);
             }
         }
         let st = match w.step(end_ms.min(next_alien_tick.max(w.now_ms + 1))) {
@@ -599,6 +616,40 @@ fn scenario(w: &mut World, ctx: &RunCtx, states: &mut Vec<u64>) -> Result<(), Vi
                     }
                 }
             }
+            StepKind::Action(14, _) => {
+                // a rotation message as a newer version might write it: keys of any length 0..=255, possibly cut
+                // short. Its message id is 0, which every receiver has already passed, so it is decoded and then
+                // ignored (what the node does with a *newer* message carrying a key it cannot use is not the decoder's
+                // business and not asked here).
+                let mut body = vec![0u8; 8];
+                let kl = match w.ch.weighted("rot_key_len", &[2, 2, 2, 1, 1, 1]) {
+                    0 => 32,
+                    1 => w.ch.choose("rot_key_len_any", 256) as usize,
+                    2 => *w.ch.pick("rot_key_len_edge", &[0usize, 1, 31, 33, 64, 96, 97, 128, 255]),
+                    3 => 255,
+                    4 => 97,
+                    _ => 0,
+                };
+                body.push(kl as u8);
+                let have = if w.ch.chance("rot_cut_short", 200) { rng.below(kl as u64 + 1) as usize } else { kl };
+                body.extend(rng.bytes(have));
+                if have == kl {
+                    let cl = *w.ch.pick("rot_confirm_len", &[0usize, 32, 255, 97, 1]);
+                    body.push(cl as u8);
+                    let chave = if w.ch.chance("rot_confirm_cut", 200) { rng.below(cl as u64 + 1) as usize } else { cl };
+                    body.extend(rng.bytes(chave));
+                }
+                if let Some(core) = alien.pc.as_mut().and_then(|pc| pc.verif_core_mut()) {
+                    let mut msg = MsgBuffer::new(100);
+                    msg.set_length(body.len() + 1);
+                    msg.message_mut()[0] = 0x10;
+                    msg.message_mut()[1..].copy_from_slice(&body);
+                    if io::guarded(|| core.encrypt(&mut msg)).is_ok() {
+                        w.inject(alien.addr, node0, msg.message().to_vec(), 5, "alien");
+                        w.count("c16_alien_rotation_messages_with_odd_keys");
+                    }
+                }
+            }
             StepKind::Action(13, _) => {
                 counter += 1;
                 let m = mesh::marker(w, counter);
@@ -700,6 +751,11 @@ fn scenario(w: &mut World, ctx: &RunCtx, states: &mut Vec<u64>) -> Result<(), Vi
     let _ = last_alien_info;
     // a well-formed newer peer is accepted: on a network that alters nothing, the node that completed the handshake
     // with the alien has decoded its payload and lists it (the alien repeats its last message every second)
+    if let (Some(at), None) = (dialled_at, established_at) {
+        if with_alien && !corrupting && fuzz_pm == 0 && at + 30_000 < w.now_ms && w.is_up(0) {
+            return Err(Violation::new("forward-compatible", "well-formed-handshake-never-completed", format!("the alien-version peer (trusted key, real handshake code, cipher list {:?}) dialled n0 at t={:.1}s on a network that alters nothing and repeated its message every second; no handshake completed until t={:.1}s{}", acfg.algorithms, at as f64 / 1000.0, w.now_ms as f64 / 1000.0, mesh::dump_state(w))));
+        }
+    }
     if let Some(at) = established_at {
         if with_alien && !corrupting && !alien_listed && at + 30_000 < w.now_ms && w.is_up(0) {
             return Err(Violation::new("forward-compatible", "well-formed-peer-never-accepted", format!("the alien-version peer completed its handshake at t={:.1}s; n0 never listed it until t={:.1}s{}", at as f64 / 1000.0, w.now_ms as f64 / 1000.0, mesh::dump_state(w))));
